@@ -38,6 +38,7 @@ def fold_obligations(ctx, rep, prog, g):
     site = clo.key if clo is not None else FN      # violation keys name the closure when there is one (as before)
     maxn = 4 if ctx.thorough else 3
     total = 0
+    pending = []
     for n in range(0, maxn + 1):
         for present in itertools.product((True, False), repeat=n):
             k = sum(present)
@@ -61,7 +62,7 @@ def fold_obligations(ctx, rep, prog, g):
                 try:
                     r, it = gram.run_with_leaf(prog, FN, ListV(items), ctx=cx, overrides=setalg.overrides(world, cx))
                 except Inconclusive as e:
-                    rep.inconc("%s: %s" % (rule, e.reason), e.where)
+                    pending.append(("%s: %s" % (rule, e.reason), e.where))
                     continue
                 except Panic as p:
                     rep.fail(rule, "%s|%s|panic %s" % (site, rule, cls), "panics: %s" % p)
@@ -95,8 +96,85 @@ def fold_obligations(ctx, rep, prog, g):
                 if total % 37 == 1:
                     rep.sample({"rule": rule, "class": cls, "extracted": bin(den), "reference": bin(exp)})
     rep.analysed_item("%s interpreted on %d (comparator list, world) cases" % (site, total))
-    if any(x.get("what", "").startswith(rule) for x in rep.inconclusive):
-        fold_witness(ctx, rep, prog, FN, site)
+    if pending:
+        # the fold looks inside the comparators (their bounds), which opaque interval tokens do not have: decided on
+        # concrete intervals over version tokens in every weak ordering instead
+        if fold_level1(ctx, rep, prog, FN, site):
+            rep.notes.append("%s: %d cases are outside the Boolean-algebra abstraction (%s); decided by T-FOLD-L1 on concrete "
+                             "intervals" % (rule, len(pending), pending[0][0]))
+            rep.rules[rule]["floor"] = 0
+        else:
+            for reason, where in pending[:20]:
+                rep.inconc(reason, where)
+            fold_witness(ctx, rep, prog, FN, site)
+
+
+def fold_level1(ctx, rep, prog, FN, site):
+    """T-FOLD-L1: the fold on lists of 1-2 comparators of every shape and 3 one-sided comparators, bounds = version tokens
+    in every weak ordering (Bound::cmp and BoundSet::new interpreted): the alternative holds exactly
+    [max lower cut, min upper cut] or nothing when that is empty. Returns True when every row was decided and held."""
+    from .. import intervals
+    from ..intervals import SHAPES, bstr, cut, sstr, vtok, weak_orders, order_str
+    rule = "T-FOLD-L1"
+    rep.rule(rule, 0, "the comparator fold on concrete intervals (version tokens, every weak ordering)")
+    env = intervals.Env(prog)
+    two = [(lo, up) for lo in SHAPES for up in SHAPES]
+    one_sided = [("I", "U"), ("E", "U"), ("U", "I"), ("U", "E")]
+    lists = [[s] for s in two] + [[a, b] for a in two for b in two] + [[a, b, c] for a in one_sided for b in one_sided for c in one_sided]
+    clean = True
+    n = 0
+    for shapes in lists:
+        names = []
+        for i, (lo, up) in enumerate(shapes):
+            if lo != "U":
+                names.append("l%d" % i)
+            if up != "U":
+                names.append("u%d" % i)
+        if len(names) > 4:
+            continue
+        for w in weak_orders(names):
+            sets, valid = [], True
+            for i, (lo, up) in enumerate(shapes):
+                a = ("L", lo, vtok("l%d" % i, w["l%d" % i]) if lo != "U" else None)
+                b = ("U", up, vtok("u%d" % i, w["u%d" % i]) if up != "U" else None)
+                if not cut(a) < cut(b):
+                    valid = False
+                    break
+                sets.append((a, b))
+            if not valid:
+                continue
+            n += 1
+            items = [some(intervals.build_set(env, s)) for s in sets]
+            cls = "%s order:%s" % (" ".join(sstr(s) for s in sets), order_str(w))
+            try:
+                r, it = gram.run_with_leaf(prog, FN, ListV(items), overrides=dict(intervals.LEVEL1))
+                lst = it.strip(r)
+                if isinstance(lst, Adt) and lst.name == "std::option::Option":
+                    lst = ListV(list(lst.fields))
+                got = [env.dec_set(it, x) for x in lst.items]
+            except Inconclusive as e:
+                rep.inconc("%s: %s" % (rule, e.reason), e.where)
+                clean = False
+                continue
+            except Panic as p:
+                rep.fail(rule, "%s|%s|panic" % (site, rule), "panics: %s (%s)" % (p, cls))
+                clean = False
+                continue
+            rep.path((rule, path_sig(it)))
+            lo = max((s[0] for s in sets), key=cut)
+            up = min((s[1] for s in sets), key=cut)
+            exp = [(cut(lo), cut(up))] if cut(lo) < cut(up) else []
+            gotc = [(cut(a), cut(b)) for a, b in got]
+            if gotc == exp:
+                rep.ok(rule)
+            else:
+                clean = False
+                kind = "alternative lost" if len(gotc) < len(exp) else ("alternative kept" if len(gotc) > len(exp) else "wrong bounds")
+                rep.fail(rule, "%s|%s|n=%d %s" % (site, rule, len(sets), kind),
+                         "the alternative holds %s, the intersection of its comparators is %s (%s)" % (
+                             [sstr(g) for g in got] or "nothing", "[%s,%s]" % (bstr(lo), bstr(up)) if exp else "empty", cls))
+    rep.analysed_item("%s interpreted on %d lists of concrete comparators (1-2 of every shape, 3 one-sided)" % (site, n))
+    return clean and n > 0
 
 
 def fold_witness(ctx, rep, prog, FN, site):
